@@ -1342,8 +1342,8 @@ def p_act( ctx ):
     eloops = [ n for n in cfg.nodes if n.kind == 'for' and engine_loop( n.stmt ) ]
     nothing = []
     for n in cfg.nodes:
-        if n.kind == 'test' and isinstance( n.expr, ast.Compare ) and len( n.expr.ops ) == 1 and dotted( n.expr.left ) == RCVD \
-           and isinstance( n.expr.comparators[0], ast.Constant ) and n.expr.comparators[0].value is None and isinstance( n.expr.ops[0], ( ast.Is, ast.IsNot )):
+        if n.kind == 'test' and isinstance( n.expr, ast.Compare ) and len( n.expr.ops ) == 1 and isinstance( n.expr.ops[0], ( ast.Is, ast.IsNot )) \
+           and any( dotted( a_ ) == RCVD and isinstance( b_, ast.Constant ) and b_.value is None for a_, b_ in (( n.expr.left, n.expr.comparators[0] ), ( n.expr.comparators[0], n.expr.left ))):
             lab = 'true' if isinstance( n.expr.ops[0], ast.Is ) else 'false'
             nothing += [ m for m, l in cfg.succ[n] if l == lab ]
     if RCVD is None or not nothing or not eloops:
